@@ -80,11 +80,24 @@ func c06HistoryCall(fc FlowControl, burst int32, key string) {
 	vclockFreeze(false)
 }
 
+// c06RefusedHistoryCall: a call the library bucket refuses (empty bucket, standing clock).
+func c06RefusedHistoryCall(fc FlowControl) {
+	lim := c06Bucket(fc)
+	if lim == nil {
+		return
+	}
+	vsetPriv(lim, "tokens", 0.0)
+	vsetPriv(lim, "last", time.Now())
+	vclockFreeze(true)
+	fc.TryAcquire()
+	vclockFreeze(false)
+}
+
 // c06StepSetup builds the limiter of a token-bucket schema through the real constructor and drives kubegateway's own
 // wrapper through a short arbitrary history first (calls admitted or refused from an arbitrary bucket state, an
 // optional reconfiguration to other numbers, further calls), so that whatever state the WRAPPER keeps is one a real
 // run can reach; then the library bucket of the current configuration is put into an arbitrary state for the step.
-func c06StepSetup(maxConfig int) (fc FlowControl, lim *rate.Limiter, qps, burst int32, tok float64, last time.Time) {
+func c06StepSetup(maxConfig int, fullHistory bool) (fc FlowControl, lim *rate.Limiter, qps, burst int32, tok float64, last time.Time) {
 	qps, burst = c06Config(nondetRange("config", 0, maxConfig))
 	fc = NewFlowControl(proxyv1alpha1.FlowControlSchema{Name: "tb", FlowControlSchemaConfiguration: proxyv1alpha1.FlowControlSchemaConfiguration{
 		TokenBucket: &proxyv1alpha1.TokenBucketFlowControlSchema{QPS: qps, Burst: burst}}})
@@ -94,7 +107,11 @@ func c06StepSetup(maxConfig int) (fc FlowControl, lim *rate.Limiter, qps, burst 
 	vassert(lim.Burst() == int(burst) && float64(lim.Limit()) == float64(qps), "C06/configured-numbers-not-installed-in-the-library-bucket")
 	// history of the wrapper
 	if nondetBool("historyCallBefore") {
-		c06HistoryCall(fc, burst, "answerH1")
+		if fullHistory {
+			c06HistoryCall(fc, burst, "answerH1")
+		} else {
+			c06RefusedHistoryCall(fc)
+		}
 	}
 	if nondetBool("historyResize") {
 		q2, b2 := c06Config(c06ResizeTarget(nondetRange("config2", 0, vbound(1, 4))))
@@ -104,7 +121,7 @@ func c06StepSetup(maxConfig int) (fc FlowControl, lim *rate.Limiter, qps, burst 
 			return
 		}
 		vassert(lim.Burst() == int(burst) && float64(lim.Limit()) == float64(qps), "C06/resize-numbers-not-installed-in-the-library-bucket")
-		if nondetBool("historyCallAfter") {
+		if fullHistory && nondetBool("historyCallAfter") {
 			c06HistoryCall(fc, burst, "answerH2")
 		}
 	}
@@ -115,7 +132,7 @@ func c06StepSetup(maxConfig int) (fc FlowControl, lim *rate.Limiter, qps, burst 
 // HarnessC06PotentialStep: upper-bound step and invariant.
 // verif:bounds (qps,burst) from the five configurations (1,1) (5,2) (10,3) (100,100) (1000,2000); tokens any real in [-0.001, burst]; last and now arbitrary instants with last <= now, both within 2^39 ns of the origin; one call. Covers any number of calls by induction (slack 2^-30 per call)
 func HarnessC06PotentialStep() {
-	fc, lim, qps, burst, tok, last := c06StepSetup(vbound(2, 4))
+	fc, lim, qps, burst, tok, last := c06StepSetup(vbound(2, 4), true)
 	if lim == nil {
 		return
 	}
@@ -151,7 +168,9 @@ func HarnessC06GenerosityStep() { c06GenerosityStep(false) }
 func HarnessC06GenerosityStepIdeal() { c06GenerosityStep(true) }
 
 func c06GenerosityStep(edge bool) {
-	fc, lim, qps, burst, tok, last := c06StepSetup(vbound(2, 4))
+	// the sound (rounding-relation) variant runs on every change with the history that matters for generosity - a refused
+	// call, a reconfiguration - and with the full history in the thorough tier; the idealised variant always has it
+	fc, lim, qps, burst, tok, last := c06StepSetup(vbound(2, 4), edge || vbound(0, 1) == 1)
 	if lim == nil {
 		return
 	}
